@@ -13,18 +13,24 @@ import shutil
 
 import lib
 
-FAMILY_FINDING_DEVIATIONS = {"fc-prune-order": "C10"}
+FAMILY_FINDING_DEVIATIONS = {"fc-prune-order": ("C10",), "fc-gap-start": ("C09", "C11")}
+FINDING_TEXT = {
+    "fc-prune-order": "prune drops the array prefix before the anchor; non-descendants inserted after the new "
+                      "finalized node survive",
+    "fc-gap-start": "a head search started at a gap-slot node (not the earliest node of its root) ignores the blocks "
+                    "built on that root after the slot",
+}
 
 # mismatch category -> property
 def classify(ev, what, prunes):
-    if ev == "UpdateJustified":
-        return "C10"
-    if ev == "SetPin":
-        return "C10"
     if what == "outcome":  # a call that panicked or did not return
-        return "C10" if prunes > 0 else {"ProcessAttestation": "C09", "Query": "C11"}.get(ev, "C11")
+        if ev in ("UpdateJustified", "SetPin") or prunes > 0:
+            return "C10"
+        return {"ProcessAttestation": "C09", "Query": "C11"}.get(ev, "C11")
     if what in ("head after call", "node table after Head", "Head", "FindHead") or ev == "ProcessAttestation":
         return "C09"
+    if ev in ("UpdateJustified", "SetPin"):
+        return "C10"
     return "C11"
 
 
@@ -326,9 +332,8 @@ def run_check(pid, tier, seed, replay=None):
     # verdicts
     rc = 0
     for dev, n in run.deviations.items():
-        if FAMILY_FINDING_DEVIATIONS.get(dev) == pid:
-            lib.report_known(pid, "%s: prune drops the array prefix before the anchor; non-descendants inserted "
-                                  "after the new finalized node survive (%d occurrences this run)" % (dev, n))
+        if pid in FAMILY_FINDING_DEVIATIONS.get(dev, ()):
+            lib.report_known(pid, "%s: %s (%d occurrences this run)" % (dev, FINDING_TEXT[dev], n))
     for i, (prop, path, line, body) in enumerate(run.mismatches[:5]):
         events = lib.read_ndjson(path)
         rp = lib.save_replay(pid, "mismatch-%d-seed%d.ndjson" % (i, seed),
